@@ -11,6 +11,12 @@ def value_gen(rng):
         v = c08.gen_value(rng, kinds=VALUE_KINDS)
         if v is not None and not c08.causes(v) and c08.impl_encode(v, True)[0] == "ok": return v
     return None
+def value_gen_parse(rng):
+    """values for the documents of the parser checks: also extension objects with any TypeId and body, raw XML elements and NodeId values"""
+    for _ in range(20):
+        v = c08.gen_value(rng, kinds=VALUE_KINDS + ["ext", "xml", "nodeid", "ext"])
+        if v is not None and not c08.causes(v) and c08.impl_encode(v, True)[0] == "ok": return v
+    return None
 def value_xml(v):
     """the Value text of a generated document.  Finite floats are written by the harness itself (repr): the documents under test must not
     depend on the state of the implementation's own encoder (memoised encoders made -0.0 and 0.0 the same input)"""
@@ -230,26 +236,42 @@ def oracle_c04_denorm(res):
     if (repr(list(nodes.columns)), len(nodes), len(refs)) != before: fails.append(("C04/denormalize", "the parse output was modified"))
     return fails
 
-def make_case(rng, quick, size=None, wide=None, slash_twin=None):
+def fixed_values():
+    """extension objects whose TypeId has the identifier of a structure the library decodes itself (EUInformation 888, Range 885) but lies in ANOTHER
+    namespace, with bodies of every kind; and one with the reserved ids in namespace 0 for contrast"""
+    from opcua_tools import ua_data_types as T
+    NS = "http://opcfoundation.org/UA/2008/02/Types.xsd"
+    rng_body = T.UAXMLElement('<Range xmlns="%s"><Low>1.0</Low><High>2.0</High></Range>' % NS)
+    return [T.UAExtensionObject(type_nodeid=T.UANodeId(1, "i", "888"), body=rng_body), T.UAExtensionObject(type_nodeid=T.UANodeId(1, "i", "885"), body=rng_body),
+            T.UAExtensionObject(type_nodeid=T.UANodeId(2, "i", "885"), body=T.UAXMLElement('<Vendor xmlns="urn:vendor"><X>1</X></Vendor>')),
+            T.UAExtensionObject(type_nodeid=T.UANodeId(1, "s", "888"), body=rng_body), T.UAExtensionObject(type_nodeid=T.UANodeId(0, "i", "886"), body=rng_body),
+            T.UAListOf((T.UAExtensionObject(type_nodeid=T.UANodeId(1, "i", "888"), body=rng_body),), "ExtensionObject"),
+            T.UAEURange(low=1.0, high=2.0)]
+
+def make_case(rng, quick, size=None, wide=None, slash_twin=None, fixed=False, base_in_table=False):
     r_ = rng.random()
     wide = (r_ < 0.08) if wide is None else wide      # many namespaces: two-digit local indices, long namespace tables
     # size: a document set with that many nodes (the number of distinct ids crosses the 8-bit boundaries)
-    if size and size != "split": g = nsgen.gen_graph(rng, n_ns=2, n_nodes=size, hostile=False, with_values=False, value_gen=value_gen)
-    elif slash_twin: g = nsgen.gen_graph(rng, n_ns=rng.randint(2, 3), n_nodes=rng.randint(5, 8), value_gen=value_gen, slash_twin=True)
-    else: g = nsgen.gen_graph(rng, n_ns=rng.randint(10, 13) if wide else rng.randint(1, 3), n_nodes=rng.randint(12, 16) if wide else rng.randint(1, 7 if quick else 10), value_gen=value_gen)
+    if size and size != "split": g = nsgen.gen_graph(rng, n_ns=2, n_nodes=size, hostile=False, with_values=False, value_gen=value_gen_parse)
+    elif slash_twin: g = nsgen.gen_graph(rng, n_ns=rng.randint(2, 3), n_nodes=rng.randint(5, 8), value_gen=value_gen_parse, slash_twin=True)
+    else: g = nsgen.gen_graph(rng, n_ns=rng.randint(10, 13) if wide else rng.randint(1, 3), n_nodes=rng.randint(12, 16) if wide else rng.randint(1, 7 if quick else 10), value_gen=value_gen_parse)
     if wide and not size and not slash_twin:
         # browse names qualified with EVERY namespace of the wide table in turn (two-digit browse-name prefixes)
         own_ = [k for k in g.order if k[0] != nsgen.UA]
         for i_, k_ in enumerate(own_): g.nodes[k_]["bname"] = (g.uris[i_ % len(g.uris)], g.nodes[k_]["bname"][1])
     if size == "split":
         # one namespace spread over two documents, with a reference between its first and its last node declared in BOTH documents
-        g = nsgen.gen_graph(rng, n_ns=1, n_nodes=6, value_gen=value_gen)
+        g = nsgen.gen_graph(rng, n_ns=1, n_nodes=6, value_gen=value_gen_parse)
         own = [k for k in g.order if k[0] == g.uris[0]]
         if len(own) >= 2:
             g.refs.append((own[0], own[-1], (nsgen.UA, "i", "47"))); g.force_both = [len(g.refs) - 1]
+    if fixed and g.uris:
+        for j_, v_ in enumerate(fixed_values()):
+            k_ = (g.uris[0], "s", "FixedValue%d" % j_); g.nodes[k_] = dict(cls="UAVariable", bname=(g.uris[0], "FixedValue%d" % j_), display="FixedValue%d" % j_, desc=None, attrs={}, value=v_); g.order.append(k_)
     # one case in five: companion specifications parsed on their own - everything of the base namespace they name (types, parents, reference types) is undefined
     g.with_base = rng.random() >= 0.2
     g.split = "force" if size == "split" else rng.random() < 0.35
+    if base_in_table: g.base_in_table = True        # every document lists the OPC UA namespace in its own table and uses that index for base identifiers
     ds = nsgen.serialise(g, rng, value_xml=value_xml, with_base=g.with_base, split=g.split)
     return g, ds
 
@@ -357,7 +379,7 @@ def run(ctx, prop):
         for ci in range(n_cases):
             vlib.pandas_mode(ci)
             # the third and fourth case are medium-sized: 128..255 and 256+ distinct NodeIds in one parse (ids beyond the range of the narrow integer types)
-            g, ds = make_case(rng, ctx.quick(), size={2: rng.randint(120, 200), 3: rng.randint(260, 300), 6: "split"}.get(ci), wide=True if ci == 4 else None, slash_twin=True if ci == 5 else None)
+            g, ds = make_case(rng, ctx.quick(), size={2: rng.randint(120, 200), 3: rng.randint(260, 300), 6: "split"}.get(ci), wide=True if ci == 4 else None, slash_twin=True if ci == 5 else None, fixed=ci in (0, 7), base_in_table=ci in (8, 9))
             files, lay = render_set(ds, rng)
             files_plain = files
             # every third document set is spelled with general entities of an internal DTD subset (same infoset; the model reads the plain spelling)
